@@ -80,6 +80,8 @@ func runC12(c *Ctx) {
 	c12CommitReuse(c)
 	c12ExactNames(c)
 	c12NestedTag(c, "R3")
+	fixupAttributesPerCommit(c, "R2")
+	noFetchIncludeIn(c, "R2", "which paths migrate rewrites is decided by --include/--exclude alone: with lfs.fetchinclude/fetchexclude configured, selected paths stay unconverted (or unselected ones are converted) and .gitattributes gets lines nobody asked for", "getHistoryRewriter", "migrateImportCommand", "migrateExportCommand", "migrateInfoCommand")
 	c12NoRewriteAccumulates(c, "R2")
 	rw := p.Fn("git/githistory", "(*Rewriter).Rewrite")
 	rt := p.Fn("git/githistory", "(*Rewriter).rewriteTree")
